@@ -104,6 +104,22 @@ Definition rx1_channel_ok (reg : region) (down : list channel) (i f : Z)
   | _, _ => false
   end.
 
+(* The same rule stated on observations only (used for band objects after a history of
+   AddChannel calls, where the downlink channel list is not a dumped table): uplink channel
+   [i] has frequency [f]; [o_idx] = RX1 channel index obtained from [i]; [o_down] = frequency
+   of the downlink channel GetDownlinkChannel(that index) (an error when there is no such
+   downlink channel); [o_freq] = RX1 frequency obtained from [f]. *)
+Definition rx1_channel_obs_ok (reg : region) (i f : Z) (o_idx o_down o_freq : outcome Z) : bool :=
+  match o_idx, o_down, o_freq with
+  | Ok j, Ok g', Ok g =>
+    (j =? spec_rx1_channel reg i) && (g' =? g)
+    && match reg with
+       | RUS915 | RAU915 | RCN470 => true
+       | _ => g =? f
+       end
+  | _, _, _ => false
+  end.
+
 (* ---- ping slot -------------------------------------------------------------- *)
 Definition ping_slot_ok (reg : region) (devaddr beacon : Z) (obs : outcome Z) : bool :=
   outcome_eqb Z.eqb obs (Ok (spec_ping_slot reg devaddr beacon)).
